@@ -31,8 +31,9 @@ def Word.render (w : Word) : List Char :=
 inductive SCond where
   /-- `key [not] op [value]` (neg = 1) or `not key op [value]` (neg = 2); `gap` separates the words. -/
   | clause (gap : List Char) (key : Word) (opname : Tok) (neg : Nat) (val : Option Word)
-  /-- `[not] ( m₁ and m₂ … )`; `gap` around the connective, `pgap` (possibly empty) next to the parentheses. -/
-  | group (isOr : Bool) (gap pgap : List Char) (neg : Bool) (kids : List SCond)
+  /-- `[not] ( m₁ and m₂ … )`; `gap` around the connective, `pgap` (possibly empty) inside the parentheses,
+      `ngap` (possibly empty) between `not` and the opening parenthesis. -/
+  | group (isOr : Bool) (gap pgap ngap : List Char) (neg : Bool) (kids : List SCond)
   deriving Repr
 
 def connective (isOr : Bool) : Tok := if isOr then kwOr else kwAnd
@@ -42,8 +43,8 @@ def SCond.render : SCond → List Char
   | .clause g key opn neg val =>
     (if neg = 2 then kwNot ++ g else []) ++ key.render ++ (if neg = 1 then g ++ kwNot else []) ++ g ++ opn
       ++ (match val with | none => [] | some v => g ++ v.render)
-  | .group isOr g p neg kids =>
-    (if neg then kwNot ++ p else []) ++ '(' :: p ++ renderMembers (g ++ connective isOr ++ g) kids ++ p ++ [')']
+  | .group isOr g p ng neg kids =>
+    (if neg then kwNot ++ ng else []) ++ '(' :: p ++ renderMembers (g ++ connective isOr ++ g) kids ++ p ++ [')']
 def renderMembers (sep : List Char) : List SCond → List Char
   | [] => []
   | c :: cs => match cs with
@@ -67,7 +68,7 @@ def Sentence.renderWhere (s : Sentence) : List Char :=
   | none => []
   | some c => s.gap ++ kwWhere ++ s.gap ++
     (match c with
-     | .group isOr g _ false kids => if s.strip then renderMembers (g ++ connective isOr ++ g) kids else c.render
+     | .group isOr g _ _ false kids => if s.strip then renderMembers (g ++ connective isOr ++ g) kids else c.render
      | _ => c.render)
 
 def Sentence.render (s : Sentence) : List Char :=
@@ -85,7 +86,7 @@ def SCond.cond (O : Oracle) : SCond → Cond
       | none => Cond.bad .operator
       | some op => mkWhere O key.text op (match val with | none => .nil | some v => .str v.text)
     if neg = 0 then c else .not c
-  | .group isOr _ _ neg kids =>
+  | .group isOr _ _ _ neg kids =>
     let c := if isOr then Cond.or (condList O kids) else Cond.and (condList O kids)
     if neg then .not c else c
 def condList (O : Oracle) : List SCond → List Cond
@@ -124,7 +125,7 @@ def SCond.wf : SCond → Bool
      | some op => match val with
        | none => op = opExists
        | some v => op ≠ opExists && v.wf)
-  | .group _ g p _ kids => gapOK g && p.all isWs && kidsWf kids && 2 ≤ kids.length
+  | .group _ g p ng _ kids => gapOK g && p.all isWs && ng.all isWs && kidsWf kids && 2 ≤ kids.length
 def kidsWf : List SCond → Bool
   | [] => true
   | c :: cs => c.wf && kidsWf cs
